@@ -1,5 +1,680 @@
 //! C08 limits outside publish-subscribe / request-response: event (max_notifiers, max_listeners,
 //! event_id_max), blackboard (max_readers, single writer), max_nodes for every pattern.
-use vcore::Ctx;
+//!
+//! Parts (all sequential histories against model counters, `local::Service` and `ipc::Service`):
+//!  * `lim.event.*` — generated histories over notifier / listener creation and drop (through the
+//!    creating and an opening factory), notifications with ids 0..6 and draining. One-too-many is
+//!    refused with exactly `ExceedsMaxSupportedNotifiers` / `ExceedsMaxSupportedListeners`, an id
+//!    above `event_id_max_value` with exactly `EventIdOutOfBounds`; a refusal changes nothing
+//!    (registry counts after every step; the next notification still reaches every listener and
+//!    nobody else, a refused notification reaches nobody); after freeing one the call succeeds.
+//!  * `lim.blackboard.*` — the same for `max_readers` and the single writer.
+//!  * `lim.nodes` — for every pattern and limit 0..4: the (max_nodes+1)-th node is refused with
+//!    exactly `*OpenError::ExceedsMaxNumberOfNodes` (also through `open_or_create`), the refusal
+//!    leaves neither a file nor a registry entry behind, a member node can still open the service
+//!    again, and after any one holder dropped its handle the refused node gets in.
+//! Limits are drawn from 0..4; the model uses the clamped value read back from `static_config()`
+//! (0 -> 1 as the conformance tests `set_*_to_zero_adjusts_it_to_one` document).
+use crate::domain::Domain;
+use iceoryx2::port::listener::{Listener, ListenerCreateError};
+use iceoryx2::port::notifier::{Notifier, NotifierCreateError, NotifierNotifyError};
+use iceoryx2::port::reader::{Reader, ReaderCreateError};
+use iceoryx2::port::writer::{Writer, WriterCreateError};
+use iceoryx2::prelude::*;
+use iceoryx2::service::builder::blackboard::BlackboardOpenError;
+use iceoryx2::service::builder::event::{EventOpenError, EventOpenOrCreateError};
+use iceoryx2::service::builder::publish_subscribe::{PublishSubscribeOpenError, PublishSubscribeOpenOrCreateError};
+use iceoryx2::service::builder::request_response::{RequestResponseOpenError, RequestResponseOpenOrCreateError};
+use proptest::prelude::*;
+use serde::{Deserialize, Serialize};
+use std::collections::BTreeMap;
+use vcore::util::idx;
+use vcore::{Ctx, Failure, Obs, ensure, fail};
 
-pub fn c08_parts(_ctx: &mut Ctx) {}
+fn setup_err(what: &str, e: impl core::fmt::Debug) -> Failure {
+    Failure::new("setup", format!("{what}: {e:?}"))
+}
+
+// ---- event -----------------------------------------------------------------------------------
+
+#[derive(Clone, Debug, Serialize, Deserialize)]
+pub enum EvOp {
+    NewNotifier { second: bool },
+    DropNotifier(u16),
+    NewListener { second: bool },
+    DropListener(u16),
+    /// id 0..6 (limits are 0..4: ids above the limit are part of the game)
+    Notify { n: u16, id: u8 },
+    Drain(u16),
+    OpenSecond,
+    DropSecond,
+}
+
+#[derive(Clone, Debug, Serialize, Deserialize)]
+pub struct EvCase {
+    pub max_notifiers: usize,
+    pub max_listeners: usize,
+    pub event_id_max: usize,
+    pub ops: Vec<EvOp>,
+}
+
+fn ev_strategy(max_ops: usize) -> impl Strategy<Value = EvCase> {
+    let op = prop_oneof![
+        5 => any::<bool>().prop_map(|second| EvOp::NewNotifier { second }),
+        2 => any::<u16>().prop_map(EvOp::DropNotifier),
+        5 => any::<bool>().prop_map(|second| EvOp::NewListener { second }),
+        2 => any::<u16>().prop_map(EvOp::DropListener),
+        6 => (any::<u16>(), 0u8..7).prop_map(|(n, id)| EvOp::Notify { n, id }),
+        3 => any::<u16>().prop_map(EvOp::Drain),
+        1 => Just(EvOp::OpenSecond),
+        1 => Just(EvOp::DropSecond),
+    ];
+    (0usize..=4, 0usize..=4, 0usize..=4, proptest::collection::vec(op, 1..max_ops)).prop_map(|(max_notifiers, max_listeners, event_id_max, ops)| EvCase { max_notifiers, max_listeners, event_id_max, ops })
+}
+
+struct Lst<S: Service> {
+    port: Listener<S>,
+    /// id -> number of notifications sent since the last drain
+    pending: BTreeMap<usize, u64>,
+}
+
+fn drain<S: Service>(l: &mut Lst<S>, who: usize) -> Result<(), Failure> {
+    let mut got: BTreeMap<usize, u64> = BTreeMap::new();
+    loop {
+        let mut any = false;
+        l.port
+            .try_wait(|a| {
+                any = true;
+                *got.entry(a.id.as_value()).or_default() += a.count.max(1);
+            })
+            .map_err(|e| Failure::new("lim.event.wait", format!("try_wait of listener {who} failed: {e:?}")))?;
+        if !any {
+            break;
+        }
+    }
+    let want: Vec<usize> = l.pending.keys().cloned().collect();
+    let have: Vec<usize> = got.keys().cloned().collect();
+    ensure!(want == have, "lim.event.delivery", "listener {who} received the ids {have:?}, notified since its last drain were {want:?}");
+    for (id, n) in &got {
+        ensure!(*n <= l.pending[id], "lim.event.delivery", "listener {who} received id {id} {n} times, it was sent {} times", l.pending[id]);
+    }
+    l.pending.clear();
+    Ok(())
+}
+
+fn ev_run<S: Service>(c: &EvCase, obs: &mut Obs) -> Result<(), Failure> {
+    let domain = Domain::new();
+    let r = ev_run_in::<S>(c, obs, &domain);
+    domain.cleanup();
+    r
+}
+
+fn ev_run_in<S: Service>(c: &EvCase, obs: &mut Obs, domain: &Domain) -> Result<(), Failure> {
+    let node = NodeBuilder::new().config(&domain.config).create::<S>().map_err(|e| setup_err("node", e))?;
+    let node2 = NodeBuilder::new().config(&domain.config).create::<S>().map_err(|e| setup_err("node", e))?;
+    let name = ServiceName::new("limev").unwrap();
+    let first = node
+        .service_builder(&name)
+        .event()
+        .max_notifiers(c.max_notifiers)
+        .max_listeners(c.max_listeners)
+        .event_id_max_value(c.event_id_max)
+        .create()
+        .map_err(|e| setup_err("event service", e))?;
+    let (max_n, max_l, max_id) = (first.static_config().max_notifiers(), first.static_config().max_listeners(), first.static_config().event_id_max_value());
+    ensure!(max_n == c.max_notifiers.max(1) && max_l == c.max_listeners.max(1) && max_id == c.event_id_max, "lim.event.clamp", "limits {c:?} read back as notifiers {max_n} listeners {max_l} event id {max_id}");
+    let mut second = None;
+    let mut notifiers: Vec<Notifier<S>> = vec![];
+    let mut listeners: Vec<Lst<S>> = vec![];
+    let mut refused = [false; 3];
+    let mut lifted = [false; 3];
+    for (step, op) in c.ops.iter().enumerate() {
+        let at = |f: Failure| Failure::new(f.signature, format!("step {step} {op:?}: {}", f.message));
+        (|| -> Result<(), Failure> {
+            match op {
+                EvOp::NewNotifier { second: sec } => {
+                    let f = match (&second, *sec) {
+                        (Some(s), true) => s,
+                        _ => &first,
+                    };
+                    match f.notifier_builder().create() {
+                        Ok(n) => {
+                            ensure!(notifiers.len() < max_n, "lim.event.notifier_limit", "notifier {} created with max_notifiers {max_n}", notifiers.len() + 1);
+                            if refused[0] {
+                                lifted[0] = true;
+                            }
+                            notifiers.push(n);
+                        }
+                        Err(NotifierCreateError::ExceedsMaxSupportedNotifiers) => {
+                            ensure!(notifiers.len() >= max_n, "lim.event.notifier_limit", "notifier refused with {} of {max_n} notifiers", notifiers.len());
+                            refused[0] = true;
+                        }
+                        Err(e) => fail!("lim.event.notifier_create", "notifier creation failed with {e:?}"),
+                    }
+                }
+                EvOp::DropNotifier(i) => {
+                    if !notifiers.is_empty() {
+                        notifiers.remove(idx(*i, notifiers.len()));
+                    }
+                }
+                EvOp::NewListener { second: sec } => {
+                    let f = match (&second, *sec) {
+                        (Some(s), true) => s,
+                        _ => &first,
+                    };
+                    match f.listener_builder().create() {
+                        Ok(l) => {
+                            ensure!(listeners.len() < max_l, "lim.event.listener_limit", "listener {} created with max_listeners {max_l}", listeners.len() + 1);
+                            if refused[1] {
+                                lifted[1] = true;
+                            }
+                            listeners.push(Lst { port: l, pending: BTreeMap::new() });
+                        }
+                        Err(ListenerCreateError::ExceedsMaxSupportedListeners) => {
+                            ensure!(listeners.len() >= max_l, "lim.event.listener_limit", "listener refused with {} of {max_l} listeners", listeners.len());
+                            refused[1] = true;
+                        }
+                        Err(e) => fail!("lim.event.listener_create", "listener creation failed with {e:?}"),
+                    }
+                }
+                EvOp::DropListener(i) => {
+                    if !listeners.is_empty() {
+                        listeners.remove(idx(*i, listeners.len()));
+                    }
+                }
+                EvOp::Notify { n, id } => {
+                    if notifiers.is_empty() {
+                        return Ok(());
+                    }
+                    let nt = &notifiers[idx(*n, notifiers.len())];
+                    let id = *id as usize;
+                    match nt.notify_with_custom_event_id(EventId::new(id)) {
+                        Ok(k) => {
+                            ensure!(id <= max_id, "lim.event.id_limit", "notification with id {id} accepted, event_id_max_value is {max_id}");
+                            ensure!(k == listeners.len(), "lim.event.delivery", "notify reports {k} notified listeners, {} exist", listeners.len());
+                            if refused[2] {
+                                lifted[2] = true;
+                            }
+                            for l in listeners.iter_mut() {
+                                *l.pending.entry(id).or_default() += 1;
+                            }
+                        }
+                        Err(NotifierNotifyError::EventIdOutOfBounds) => {
+                            ensure!(id > max_id, "lim.event.id_limit", "notification with id {id} refused, event_id_max_value is {max_id}");
+                            refused[2] = true;
+                            // no side effect: every listener sees exactly what it was sent before
+                            for (i, l) in listeners.iter_mut().enumerate() {
+                                drain(l, i)?;
+                            }
+                        }
+                        Err(e) => fail!("lim.event.notify", "notify failed with {e:?}"),
+                    }
+                }
+                EvOp::Drain(i) => {
+                    if !listeners.is_empty() {
+                        let k = idx(*i, listeners.len());
+                        drain(&mut listeners[k], k)?;
+                    }
+                }
+                EvOp::OpenSecond => {
+                    if second.is_none() {
+                        second = Some(node2.service_builder(&name).event().open().map_err(|e| Failure::new("lim.event.open", format!("second node could not open the service: {e:?}")))?);
+                    }
+                }
+                EvOp::DropSecond => second = None,
+            }
+            let dc = first.dynamic_config();
+            ensure!(dc.number_of_notifiers() == notifiers.len() && dc.number_of_listeners() == listeners.len(), "lim.event.registry", "registry shows {} notifiers / {} listeners, alive are {} / {}", dc.number_of_notifiers(), dc.number_of_listeners(), notifiers.len(), listeners.len());
+            Ok(())
+        })()
+        .map_err(at)?;
+    }
+    for (i, l) in listeners.iter_mut().enumerate() {
+        drain(l, i).map_err(|f| Failure::new(f.signature, format!("final drain: {}", f.message)))?;
+    }
+    for (k, name) in [(0, ("lim_notifier_refused", "lim_notifier_lifted")), (1, ("lim_listener_refused", "lim_listener_lifted")), (2, ("lim_event_id_refused", "lim_event_id_lifted"))] {
+        if refused[k] {
+            obs.class(name.0);
+        }
+        if lifted[k] {
+            obs.class(name.1);
+        }
+    }
+    obs.nontrivial = lifted.iter().any(|l| *l);
+    Ok(())
+}
+
+// ---- blackboard ------------------------------------------------------------------------------
+
+#[derive(Clone, Debug, Serialize, Deserialize)]
+pub enum BbOp {
+    NewReader { second: bool },
+    DropReader(u16),
+    NewWriter { second: bool },
+    DropWriter,
+    Write,
+    ReadAll,
+    OpenSecond,
+    DropSecond,
+}
+
+#[derive(Clone, Debug, Serialize, Deserialize)]
+pub struct BbCase {
+    pub max_readers: usize,
+    pub ops: Vec<BbOp>,
+}
+
+fn bb_strategy(max_ops: usize) -> impl Strategy<Value = BbCase> {
+    let op = prop_oneof![
+        6 => any::<bool>().prop_map(|second| BbOp::NewReader { second }),
+        2 => any::<u16>().prop_map(BbOp::DropReader),
+        3 => any::<bool>().prop_map(|second| BbOp::NewWriter { second }),
+        1 => Just(BbOp::DropWriter),
+        3 => Just(BbOp::Write),
+        3 => Just(BbOp::ReadAll),
+        1 => Just(BbOp::OpenSecond),
+        1 => Just(BbOp::DropSecond),
+    ];
+    (0usize..=4, proptest::collection::vec(op, 1..max_ops)).prop_map(|(max_readers, ops)| BbCase { max_readers, ops })
+}
+
+fn bb_run<S: Service>(c: &BbCase, obs: &mut Obs) -> Result<(), Failure> {
+    let domain = Domain::new();
+    let r = bb_run_in::<S>(c, obs, &domain);
+    domain.cleanup();
+    r
+}
+
+fn bb_run_in<S: Service>(c: &BbCase, obs: &mut Obs, domain: &Domain) -> Result<(), Failure> {
+    let node = NodeBuilder::new().config(&domain.config).create::<S>().map_err(|e| setup_err("node", e))?;
+    let node2 = NodeBuilder::new().config(&domain.config).create::<S>().map_err(|e| setup_err("node", e))?;
+    let name = ServiceName::new("limbb").unwrap();
+    let first = node.service_builder(&name).blackboard_creator::<u64>().max_readers(c.max_readers).add::<u64>(0, 0).create().map_err(|e| setup_err("blackboard", e))?;
+    let max_r = first.static_config().max_readers();
+    ensure!(max_r == c.max_readers.max(1), "lim.blackboard.clamp", "max_readers({}) reads back as {max_r}", c.max_readers);
+    let mut second = None;
+    let mut readers: Vec<Reader<S, u64>> = vec![];
+    let mut writer: Option<Writer<S, u64>> = None;
+    let mut value = 0u64;
+    let mut refused = [false; 2];
+    let mut lifted = [false; 2];
+    for (step, op) in c.ops.iter().enumerate() {
+        let at = |f: Failure| Failure::new(f.signature, format!("step {step} {op:?}: {}", f.message));
+        (|| -> Result<(), Failure> {
+            match op {
+                BbOp::NewReader { second: sec } => {
+                    let f = match (&second, *sec) {
+                        (Some(s), true) => s,
+                        _ => &first,
+                    };
+                    match f.reader_builder().create() {
+                        Ok(r) => {
+                            ensure!(readers.len() < max_r, "lim.blackboard.reader_limit", "reader {} created with max_readers {max_r}", readers.len() + 1);
+                            if refused[0] {
+                                lifted[0] = true;
+                            }
+                            readers.push(r);
+                        }
+                        Err(ReaderCreateError::ExceedsMaxSupportedReaders) => {
+                            ensure!(readers.len() >= max_r, "lim.blackboard.reader_limit", "reader refused with {} of {max_r} readers", readers.len());
+                            refused[0] = true;
+                        }
+                        Err(e) => fail!("lim.blackboard.reader_create", "reader creation failed with {e:?}"),
+                    }
+                }
+                BbOp::DropReader(i) => {
+                    if !readers.is_empty() {
+                        readers.remove(idx(*i, readers.len()));
+                    }
+                }
+                BbOp::NewWriter { second: sec } => {
+                    let f = match (&second, *sec) {
+                        (Some(s), true) => s,
+                        _ => &first,
+                    };
+                    match f.writer_builder().create() {
+                        Ok(w) => {
+                            ensure!(writer.is_none(), "lim.blackboard.writer_limit", "a second writer was created");
+                            if refused[1] {
+                                lifted[1] = true;
+                            }
+                            writer = Some(w);
+                        }
+                        Err(WriterCreateError::ExceedsMaxSupportedWriters) => {
+                            ensure!(writer.is_some(), "lim.blackboard.writer_limit", "writer refused although none exists");
+                            refused[1] = true;
+                        }
+                        Err(e) => fail!("lim.blackboard.writer_create", "writer creation failed with {e:?}"),
+                    }
+                }
+                BbOp::DropWriter => writer = None,
+                BbOp::Write => {
+                    if let Some(w) = &writer {
+                        let h = w.entry::<u64>(&0).map_err(|e| Failure::new("lim.blackboard.entry", format!("write handle refused: {e:?}")))?;
+                        value += 1;
+                        h.update_with_copy(value);
+                    }
+                }
+                BbOp::ReadAll => {
+                    for (i, r) in readers.iter().enumerate() {
+                        let h = r.entry::<u64>(&0).map_err(|e| Failure::new("lim.blackboard.entry", format!("read handle refused: {e:?}")))?;
+                        let v = *h.get();
+                        ensure!(v == value, "lim.blackboard.value", "reader {i} reads {v}, last written is {value}");
+                    }
+                }
+                BbOp::OpenSecond => {
+                    if second.is_none() {
+                        second = Some(node2.service_builder(&name).blackboard_opener::<u64>().open().map_err(|e| Failure::new("lim.blackboard.open", format!("second node could not open the service: {e:?}")))?);
+                    }
+                }
+                BbOp::DropSecond => second = None,
+            }
+            let dc = first.dynamic_config();
+            ensure!(dc.number_of_readers() == readers.len() && dc.number_of_writers() == writer.is_some() as usize, "lim.blackboard.registry", "registry shows {} readers / {} writers, alive are {} / {}", dc.number_of_readers(), dc.number_of_writers(), readers.len(), writer.is_some() as usize);
+            Ok(())
+        })()
+        .map_err(at)?;
+    }
+    if refused[0] {
+        obs.class("lim_reader_refused");
+    }
+    if lifted[0] {
+        obs.class("lim_reader_lifted");
+    }
+    if refused[1] {
+        obs.class("lim_writer_refused");
+    }
+    if lifted[1] {
+        obs.class("lim_writer_lifted");
+    }
+    obs.nontrivial = lifted.iter().any(|l| *l);
+    Ok(())
+}
+
+// ---- max_nodes -------------------------------------------------------------------------------
+
+#[derive(Clone, Debug, Serialize, Deserialize)]
+pub struct NodesCase {
+    /// 0 publish-subscribe, 1 request-response, 2 event, 3 blackboard
+    pub pattern: u8,
+    pub ipc: bool,
+    pub max_nodes: usize,
+    /// which holder gives up its handle (0 = the creator), taken modulo the number of holders
+    pub drop_holder: usize,
+    /// the node of the dropped holder is dropped as well
+    pub drop_node_too: bool,
+}
+
+/// What the max_nodes scenario needs from a pattern.
+trait Pat<S: Service> {
+    type Factory;
+    const NAME: &'static str;
+    fn create(node: &Node<S>, name: &ServiceName, max_nodes: usize) -> Result<Self::Factory, String>;
+    /// `Ok(Err(()))` = refused with exactly ExceedsMaxNumberOfNodes
+    fn open(node: &Node<S>, name: &ServiceName) -> Result<Result<Self::Factory, ()>, String>;
+    /// same through open_or_create (None: the pattern has none)
+    fn open_or_create(node: &Node<S>, name: &ServiceName) -> Option<Result<Result<Self::Factory, ()>, String>>;
+    fn max_nodes(f: &Self::Factory) -> usize;
+    fn count_nodes(f: &Self::Factory) -> Result<usize, String>;
+}
+
+fn count<S: Service, F: iceoryx2::service::port_factory::PortFactory<Service = S>>(f: &F) -> Result<usize, String> {
+    let mut n = 0;
+    f.nodes(|_| {
+        n += 1;
+        CallbackProgression::Continue
+    })
+    .map_err(|e| format!("nodes() failed: {e:?}"))?;
+    Ok(n)
+}
+
+struct PubSub;
+impl<S: Service> Pat<S> for PubSub {
+    type Factory = iceoryx2::service::port_factory::publish_subscribe::PortFactory<S, u64, ()>;
+    const NAME: &'static str = "publish_subscribe";
+    fn create(node: &Node<S>, name: &ServiceName, m: usize) -> Result<Self::Factory, String> {
+        node.service_builder(name).publish_subscribe::<u64>().max_nodes(m).create().map_err(|e| format!("{e:?}"))
+    }
+    fn open(node: &Node<S>, name: &ServiceName) -> Result<Result<Self::Factory, ()>, String> {
+        match node.service_builder(name).publish_subscribe::<u64>().open() {
+            Ok(f) => Ok(Ok(f)),
+            Err(PublishSubscribeOpenError::ExceedsMaxNumberOfNodes) => Ok(Err(())),
+            Err(e) => Err(format!("{e:?}")),
+        }
+    }
+    fn open_or_create(node: &Node<S>, name: &ServiceName) -> Option<Result<Result<Self::Factory, ()>, String>> {
+        Some(match node.service_builder(name).publish_subscribe::<u64>().open_or_create() {
+            Ok(f) => Ok(Ok(f)),
+            Err(PublishSubscribeOpenOrCreateError::PublishSubscribeOpenError(PublishSubscribeOpenError::ExceedsMaxNumberOfNodes)) => Ok(Err(())),
+            Err(e) => Err(format!("{e:?}")),
+        })
+    }
+    fn max_nodes(f: &Self::Factory) -> usize {
+        f.static_config().max_nodes()
+    }
+    fn count_nodes(f: &Self::Factory) -> Result<usize, String> {
+        count(f)
+    }
+}
+
+struct ReqRes;
+impl<S: Service> Pat<S> for ReqRes {
+    type Factory = iceoryx2::service::port_factory::request_response::PortFactory<S, u64, (), u64, ()>;
+    const NAME: &'static str = "request_response";
+    fn create(node: &Node<S>, name: &ServiceName, m: usize) -> Result<Self::Factory, String> {
+        node.service_builder(name).request_response::<u64, u64>().max_nodes(m).create().map_err(|e| format!("{e:?}"))
+    }
+    fn open(node: &Node<S>, name: &ServiceName) -> Result<Result<Self::Factory, ()>, String> {
+        match node.service_builder(name).request_response::<u64, u64>().open() {
+            Ok(f) => Ok(Ok(f)),
+            Err(RequestResponseOpenError::ExceedsMaxNumberOfNodes) => Ok(Err(())),
+            Err(e) => Err(format!("{e:?}")),
+        }
+    }
+    fn open_or_create(node: &Node<S>, name: &ServiceName) -> Option<Result<Result<Self::Factory, ()>, String>> {
+        Some(match node.service_builder(name).request_response::<u64, u64>().open_or_create() {
+            Ok(f) => Ok(Ok(f)),
+            Err(RequestResponseOpenOrCreateError::RequestResponseOpenError(RequestResponseOpenError::ExceedsMaxNumberOfNodes)) => Ok(Err(())),
+            Err(e) => Err(format!("{e:?}")),
+        })
+    }
+    fn max_nodes(f: &Self::Factory) -> usize {
+        f.static_config().max_nodes()
+    }
+    fn count_nodes(f: &Self::Factory) -> Result<usize, String> {
+        count(f)
+    }
+}
+
+struct Event;
+impl<S: Service> Pat<S> for Event {
+    type Factory = iceoryx2::service::port_factory::event::PortFactory<S>;
+    const NAME: &'static str = "event";
+    fn create(node: &Node<S>, name: &ServiceName, m: usize) -> Result<Self::Factory, String> {
+        node.service_builder(name).event().max_nodes(m).create().map_err(|e| format!("{e:?}"))
+    }
+    fn open(node: &Node<S>, name: &ServiceName) -> Result<Result<Self::Factory, ()>, String> {
+        match node.service_builder(name).event().open() {
+            Ok(f) => Ok(Ok(f)),
+            Err(EventOpenError::ExceedsMaxNumberOfNodes) => Ok(Err(())),
+            Err(e) => Err(format!("{e:?}")),
+        }
+    }
+    fn open_or_create(node: &Node<S>, name: &ServiceName) -> Option<Result<Result<Self::Factory, ()>, String>> {
+        Some(match node.service_builder(name).event().open_or_create() {
+            Ok(f) => Ok(Ok(f)),
+            Err(EventOpenOrCreateError::EventOpenError(EventOpenError::ExceedsMaxNumberOfNodes)) => Ok(Err(())),
+            Err(e) => Err(format!("{e:?}")),
+        })
+    }
+    fn max_nodes(f: &Self::Factory) -> usize {
+        f.static_config().max_nodes()
+    }
+    fn count_nodes(f: &Self::Factory) -> Result<usize, String> {
+        count(f)
+    }
+}
+
+struct Blackboard;
+impl<S: Service> Pat<S> for Blackboard {
+    type Factory = iceoryx2::service::port_factory::blackboard::PortFactory<S, u64>;
+    const NAME: &'static str = "blackboard";
+    fn create(node: &Node<S>, name: &ServiceName, m: usize) -> Result<Self::Factory, String> {
+        node.service_builder(name).blackboard_creator::<u64>().max_nodes(m).add::<u64>(0, 0).create().map_err(|e| format!("{e:?}"))
+    }
+    fn open(node: &Node<S>, name: &ServiceName) -> Result<Result<Self::Factory, ()>, String> {
+        match node.service_builder(name).blackboard_opener::<u64>().open() {
+            Ok(f) => Ok(Ok(f)),
+            Err(BlackboardOpenError::ExceedsMaxNumberOfNodes) => Ok(Err(())),
+            Err(e) => Err(format!("{e:?}")),
+        }
+    }
+    fn open_or_create(_: &Node<S>, _: &ServiceName) -> Option<Result<Result<Self::Factory, ()>, String>> {
+        None
+    }
+    fn max_nodes(f: &Self::Factory) -> usize {
+        f.static_config().max_nodes()
+    }
+    fn count_nodes(f: &Self::Factory) -> Result<usize, String> {
+        count(f)
+    }
+}
+
+fn nodes_run<S: Service, P: Pat<S>>(c: &NodesCase, obs: &mut Obs) -> Result<(), Failure> {
+    let domain = Domain::new();
+    let r = nodes_run_in::<S, P>(c, obs, &domain);
+    domain.cleanup();
+    r
+}
+
+fn nodes_run_in<S: Service, P: Pat<S>>(c: &NodesCase, obs: &mut Obs, domain: &Domain) -> Result<(), Failure> {
+    let new_node = || NodeBuilder::new().config(&domain.config).create::<S>().map_err(|e| setup_err("node", e));
+    let name = ServiceName::new("limnodes").unwrap();
+    let pat = P::NAME;
+    let creator = new_node()?;
+    let f0 = P::create(&creator, &name, c.max_nodes).map_err(|e| setup_err(&format!("{pat} service with max_nodes {}", c.max_nodes), e))?;
+    let m = P::max_nodes(&f0);
+    ensure!(m == c.max_nodes.max(1), "lim.nodes.clamp", "{pat}: max_nodes({}) reads back as {m}", c.max_nodes);
+    // holders: (node, handle); slot 0 is the creator
+    let mut holders: Vec<(Option<Node<S>>, Option<P::Factory>)> = vec![(Some(creator), Some(f0))];
+    for k in 1..m {
+        let n = new_node()?;
+        match P::open(&n, &name) {
+            Ok(Ok(f)) => holders.push((Some(n), Some(f))),
+            Ok(Err(())) => fail!("lim.nodes.refused_inside_limit", "{pat}: node {} of {m} refused with ExceedsMaxNumberOfNodes", k + 1),
+            Err(e) => fail!("lim.nodes.open", "{pat}: node {} of {m} could not open the service: {e}", k + 1),
+        }
+    }
+    let probe = |holders: &Vec<(Option<Node<S>>, Option<P::Factory>)>, expect: usize, when: &str| -> Result<(), Failure> {
+        let f = holders.iter().find_map(|h| h.1.as_ref()).unwrap();
+        let n = P::count_nodes(f).map_err(|e| Failure::new("lim.nodes.list", format!("{pat}: {e}")))?;
+        ensure!(n == expect, "lim.nodes.registry", "{pat}: the service lists {n} nodes {when}, {expect} hold it");
+        Ok(())
+    };
+    probe(&holders, m, "when full")?;
+    // one node too many
+    let extra = new_node()?;
+    let before = domain.leftovers();
+    match P::open(&extra, &name) {
+        Ok(Err(())) => {}
+        Ok(Ok(_)) => fail!("lim.nodes.limit_not_enforced", "{pat}: node {} opened a service with max_nodes {m}", m + 1),
+        Err(e) => fail!("lim.nodes.wrong_error", "{pat}: node {} of {m} refused with {e} instead of ExceedsMaxNumberOfNodes", m + 1),
+    }
+    if let Some(r) = P::open_or_create(&extra, &name) {
+        match r {
+            Ok(Err(())) => obs.class("lim_nodes_open_or_create_refused"),
+            Ok(Ok(_)) => fail!("lim.nodes.limit_not_enforced", "{pat}: node {} got the service with max_nodes {m} through open_or_create", m + 1),
+            Err(e) => fail!("lim.nodes.wrong_error", "{pat}: open_or_create of node {} of {m} failed with {e} instead of OpenError(ExceedsMaxNumberOfNodes)", m + 1),
+        }
+    }
+    let after = domain.leftovers();
+    ensure!(before == after, "lim.nodes.side_effect", "{pat}: the refused open changed the files of the domain: before {before:?} after {after:?}");
+    probe(&holders, m, "after the refusal")?;
+    // a member may open the service once more (it is not one node too many)
+    {
+        let member = holders[m - 1].0.as_ref().unwrap();
+        match P::open(member, &name) {
+            Ok(Ok(_again)) => {
+                obs.class("lim_nodes_member_reopened_when_full");
+                probe(&holders, m, "while a member holds it twice")?;
+            }
+            Ok(Err(())) => fail!("lim.nodes.member_refused", "{pat}: a node that holds the service was refused with ExceedsMaxNumberOfNodes when opening it a second time"),
+            Err(e) => fail!("lim.nodes.open", "{pat}: second open by a member failed: {e}"),
+        }
+    }
+    probe(&holders, m, "after the member dropped its second handle")?;
+    // free one unit
+    let d = c.drop_holder % holders.len();
+    holders[d].1 = None;
+    if c.drop_node_too {
+        holders[d].0 = None;
+    }
+    let got = match P::open(&extra, &name) {
+        Ok(Ok(f)) => f,
+        Ok(Err(())) => fail!("lim.nodes.not_lifted", "{pat}: holder {d} of {m} dropped its handle, the next node is still refused with ExceedsMaxNumberOfNodes"),
+        Err(e) => fail!("lim.nodes.open", "{pat}: open after holder {d} dropped its handle failed: {e}"),
+    };
+    holders.push((None, Some(got)));
+    probe(&holders, m, "after the exchange")?;
+    // and full again
+    let extra2 = new_node()?;
+    match P::open(&extra2, &name) {
+        Ok(Err(())) => {}
+        Ok(Ok(_)) => fail!("lim.nodes.limit_not_enforced", "{pat}: after the exchange node {} opened a service with max_nodes {m}", m + 1),
+        Err(e) => fail!("lim.nodes.wrong_error", "{pat}: after the exchange the extra node was refused with {e}"),
+    }
+    obs.class(match c.pattern {
+        0 => "lim_nodes_publish_subscribe",
+        1 => "lim_nodes_request_response",
+        2 => "lim_nodes_event",
+        _ => "lim_nodes_blackboard",
+    });
+    if d == 0 {
+        obs.class("lim_nodes_creator_left");
+    }
+    obs.nontrivial = true;
+    drop(holders);
+    drop(extra);
+    Ok(())
+}
+
+fn nodes_case(c: &NodesCase, obs: &mut Obs) -> Result<(), Failure> {
+    use iceoryx2::service::{ipc, local};
+    match (c.pattern, c.ipc) {
+        (0, false) => nodes_run::<local::Service, PubSub>(c, obs),
+        (0, true) => nodes_run::<ipc::Service, PubSub>(c, obs),
+        (1, false) => nodes_run::<local::Service, ReqRes>(c, obs),
+        (1, true) => nodes_run::<ipc::Service, ReqRes>(c, obs),
+        (2, false) => nodes_run::<local::Service, Event>(c, obs),
+        (2, true) => nodes_run::<ipc::Service, Event>(c, obs),
+        (_, false) => nodes_run::<local::Service, Blackboard>(c, obs),
+        (_, true) => nodes_run::<ipc::Service, Blackboard>(c, obs),
+    }
+}
+
+pub fn c08_parts(ctx: &mut Ctx) {
+    use iceoryx2::service::{ipc, local};
+    let steps = ctx.scale(60, 120);
+    ctx.proptest("lim.event.local", ctx.scale(6_000u64, 150_000), ev_strategy(steps), |c, obs| ev_run::<local::Service>(c, obs));
+    ctx.proptest("lim.event.ipc", ctx.scale(1_500u64, 40_000), ev_strategy(steps), |c, obs| ev_run::<ipc::Service>(c, obs));
+    ctx.proptest("lim.blackboard.local", ctx.scale(4_000u64, 100_000), bb_strategy(steps), |c, obs| bb_run::<local::Service>(c, obs));
+    ctx.proptest("lim.blackboard.ipc", ctx.scale(1_000u64, 25_000), bb_strategy(steps), |c, obs| bb_run::<ipc::Service>(c, obs));
+    let mut cases = vec![];
+    for pattern in 0..4u8 {
+        for ipc in [false, true] {
+            for max_nodes in 0..=4usize {
+                for drop_holder in 0..max_nodes.max(1) {
+                    for drop_node_too in [false, true] {
+                        cases.push(NodesCase { pattern, ipc, max_nodes, drop_holder, drop_node_too });
+                    }
+                }
+            }
+        }
+    }
+    ctx.enumerate(
+        "lim.nodes",
+        "pattern (publish-subscribe, request-response, event, blackboard) x service variant (local, ipc) x max_nodes 0..4 x which holder leaves x with or without its node",
+        cases.into_iter(),
+        nodes_case,
+    );
+}
